@@ -195,7 +195,7 @@ def run(ctx):
             ctx.nontrivial((json.dumps(t["shape"]), tuple(cl), json.dumps(t["leaves"])))
         for e in t["ev"]:
             ctx.actions[e["op"]] = ctx.actions.get(e["op"], 0) + 1
-    ctx.extra["binding_selftest"] = selftest(an)
+    ctx.selftest(selftest, an)
     ctx.rule = ("programs = every well-formed postfix program of length <= %d over Push(class) / Add Sub Neg Abs MulK RMulK DivK "
                 "ModK Round / Eq Ne Lt Gt (TLC-enumerated, all 5 leaf classes) + simulated programs up to length 7; each shape is "
                 "evaluated on real objects once per supported class assignment (max %d) x %d leaf-value assignment(s) from the "
